@@ -197,6 +197,26 @@ pub fn run_c17(seed: u64, run: u64) -> Acc {
                 n_noise += 1;
             }
         }
+        if l.starts_with("go") && text != *l {
+            // unknown tokens inside go are ignored: the parsed clock settings are those of the clean line
+            let parse = |t: &str| -> Option<(i128, i128, i128, i128, Option<u32>)> {
+                let c = crate::utils::clean_input(t);
+                let toks: Vec<&str> = c.split(' ').collect();
+                std::panic::catch_unwind(|| {
+                    let g = crate::uci::verif_parse_go_command(&toks);
+                    (g.wtime, g.btime, g.winc, g.binc, g.movestogo)
+                })
+                .ok()
+            };
+            let (a, b) = (parse(l), parse(&text));
+            if a != b {
+                let mut sc = Scenario::new();
+                sc.line("uci");
+                sc.line(&text);
+                sc.line("quit");
+                v("C17/ignore/go-tokens-change-the-clock-settings".into(), format!("{:?} parses as {:?} but {:?} parses as {:?}", l, a, text, b), &sc, &mut acc);
+            }
+        }
         noisy.push((text, eol));
     }
     while rng.chance(1, 3) {
